@@ -37,8 +37,15 @@ func assertsEq(b *ssa.BinOp, pol bool) bool {
 
 // blockFacts returns the facts holding on entry to block b.
 func blockFacts(b *ssa.BasicBlock) []Fact {
-	return blockFactsS(b, map[Fact]bool{})
+	if fs, ok := blockFactsMemo[b]; ok {
+		return fs
+	}
+	fs := blockFactsS(b, map[Fact]bool{})
+	blockFactsMemo[b] = fs
+	return fs
 }
+
+var blockFactsMemo = map[*ssa.BasicBlock][]Fact{}
 
 func blockFactsS(b *ssa.BasicBlock, seen map[Fact]bool) []Fact {
 	var out []Fact
@@ -246,6 +253,47 @@ func feasibleSuccs(pred, b *ssa.BasicBlock) []*ssa.BasicBlock {
 			return b.Succs[:1]
 		}
 	}
+	// the incoming value is not a constant, but what is known about it where it comes from
+	// (a dominating comparison with the same constant) may decide the branch
+	nf := normFact(ifi.Cond, true)
+	if bo, ok := nf.Cond.(*ssa.BinOp); ok && (bo.Op == token.EQL || bo.Op == token.NEQ) {
+		var phi *ssa.Phi
+		var k *ssa.Const
+		if p, ok := bo.X.(*ssa.Phi); ok {
+			phi, k = p, constOperand(bo.Y)
+		} else if p, ok := bo.Y.(*ssa.Phi); ok {
+			phi, k = p, constOperand(bo.X)
+		}
+		if phi != nil && k != nil && phi.Block() == b {
+			e := phi.Edges[idx]
+			var known []Fact
+			known = append(known, blockFacts(pred)...)
+			if pi, ok := pred.Instrs[len(pred.Instrs)-1].(*ssa.If); ok && pred.Succs[0] != pred.Succs[1] {
+				known = append(known, expandFact(normFact(pi.Cond, pred.Succs[0] == b))...)
+			}
+			for _, f := range known {
+				fb, ok := f.Cond.(*ssa.BinOp)
+				if !ok || (fb.Op != token.EQL && fb.Op != token.NEQ) {
+					continue
+				}
+				var k2 *ssa.Const
+				if fb.X == e {
+					k2 = constOperand(fb.Y)
+				} else if fb.Y == e {
+					k2 = constOperand(fb.X)
+				}
+				if k2 == nil || !sameConst(k, k2) {
+					continue
+				}
+				eEqualsK := assertsEq(fb, f.Pol)
+				condTrue := assertsEq(bo, nf.Pol) == eEqualsK // value of the If's (normalised) condition on this edge
+				if condTrue {
+					return b.Succs[:1]
+				}
+				return b.Succs[1:2]
+			}
+		}
+	}
 	return b.Succs
 }
 
@@ -270,6 +318,39 @@ func threadFrom(pred, b *ssa.BasicBlock) (*ssa.BasicBlock, *ssa.BasicBlock) {
 		pred, b = b, fs[0]
 	}
 	return pred, b
+}
+
+// alternatives lists the values v can be at a point where facts hold: a phi is replaced by its
+// incoming values that the facts do not rule out (recursively).
+func alternatives(v ssa.Value, facts []Fact) []ssa.Value {
+	var out []ssa.Value
+	seen := map[ssa.Value]bool{}
+	var add func(v ssa.Value, depth int)
+	add = func(v ssa.Value, depth int) {
+		if seen[v] {
+			return
+		}
+		seen[v] = true
+		phi, ok := v.(*ssa.Phi)
+		if !ok || depth > 4 {
+			out = append(out, v)
+			return
+		}
+		for i, e := range phi.Edges {
+			dead := false
+			for _, f := range facts {
+				if p, contradicts := phiFact(f); p == phi && contradicts(e) {
+					dead = true
+				}
+			}
+			_ = i
+			if !dead {
+				add(e, depth+1)
+			}
+		}
+	}
+	add(v, 0)
+	return out
 }
 
 func constOperand(v ssa.Value) *ssa.Const {
@@ -304,11 +385,49 @@ func knownNonNil(v ssa.Value) bool {
 		return true
 	case *ssa.Call:
 		n := calleeName(&x.Call)
-		return n == "errors.New" || n == "fmt.Errorf"
+		if n == "errors.New" || n == "fmt.Errorf" {
+			return true
+		}
+		if f := x.Call.StaticCallee(); f != nil && f.Signature.Results().Len() == 1 {
+			return returnsNonNil(f, 0)
+		}
 	case *ssa.ChangeType:
 		return knownNonNil(x.X)
 	}
 	return false
+}
+
+var returnsNonNilMemo = map[*ssa.Function]int{} // 1 yes, 2 no, 3 in progress
+
+// returnsNonNil: every return of f yields a value that is never nil (a constructor such as
+// content.Error, which wraps its argument in a fresh struct).
+func returnsNonNil(f *ssa.Function, depth int) bool {
+	switch returnsNonNilMemo[f] {
+	case 1:
+		return true
+	case 2, 3:
+		return false
+	}
+	if f.Blocks == nil || depth > 3 {
+		return false
+	}
+	returnsNonNilMemo[f] = 3
+	ok, n := true, 0
+	for _, b := range f.Blocks {
+		if ret, isRet := b.Instrs[len(b.Instrs)-1].(*ssa.Return); isRet && len(ret.Results) == 1 {
+			n++
+			if !knownNonNil(ret.Results[0]) {
+				ok = false
+			}
+		}
+	}
+	ok = ok && n > 0
+	if ok {
+		returnsNonNilMemo[f] = 1
+	} else {
+		returnsNonNilMemo[f] = 2
+	}
+	return ok
 }
 
 func boolStr(b bool) string {
